@@ -28,6 +28,7 @@ EXPLANATION = (
     "shutdown to a fixpoint; after stop/abort no created worker is un-joined, "
     "camera and storage are stopped, the state is Armed, and a successful start "
     "begins with no stale stop request and three workers.")
+EXPLANATION += (' R-PLATFORM: the synchronisation wrappers every rule relies on (lock, condition variable, thread_create / thread_join with the live mark, event_wait / event_notify_all) forward to the pthread primitive on their own object on every path; a joined handle is marked not live, a created one live; the event flag is set under the mutex before the broadcast.')
 EXPLANATION += (' R-ABORT-SEQ also orders the stop request before the one-shot trigger (through helpers). R-THREAD-EXIT: no device call after is_running = 0.')
 
 
@@ -35,7 +36,7 @@ EXPLANATION += (' R-ABORT-SEQ also orders the stop request before the one-shot t
 def run(ctx, res):
     prog = ctx.program()
     res.extra["explanation"] = EXPLANATION
-    res.assumptions += ["OS scheduling fairness; pthread primitives trusted",
+    res.assumptions += ["OS scheduling fairness; pthread primitives trusted (the wrappers in linux/platform.c are checked by R-PLATFORM)",
                         "device stop calls return (C18 for the simulated cameras)"]
     res.guard(RR.rule_abort_sequence, prog, res)
     res.guard(RR.rule_stop_sequence, prog, res)
@@ -50,6 +51,9 @@ def run(ctx, res):
         if site["loop"]:
             LR.rule_l_cv(la, res, site)
             LR.rule_l_notify(la, res, prog.func("channel_accept_writes"), site["cv"], site["reads"])
+    from .. import platformrules as PR
+    PR.run_all(prog, la, res)
+    res.require_min("R-PLATFORM", 18)
     if ctx.tier == "thorough":
         # multi-acquisition histories through the real API code
         from ..apisim import run_rules
